@@ -146,6 +146,11 @@ def corrupt(case):
     if kind == "header":
         pos = b % 8
         nb = c if c != data[pos] else (c ^ 1)
+        if (b // 8) % 3 == 0:
+            # neighbouring values of the version number (stored in bytes 4..7) and of the magic
+            pos, nb = [(4, 0), (4, 2), (4, 3), (5, 1), (7, 1), (7, 128), (0, ord("O")), (3, 0)][(b // 24) % 8]
+            if nb == data[pos]:
+                nb ^= 1
         s["raw_obs_hex"] = (data[:pos] + bytes([nb]) + data[pos + 1:]).hex()
         return base, "header byte %d := %d" % (pos, nb)
     if kind == "meta":
@@ -230,6 +235,13 @@ def corrupt(case):
             return None
         i = idx[b % len(idx)]
         e = evs[i]
+        if kind == "nonjumbo" and c % 3 == 0:
+            # still a jumbo, but too short for (u32 typeid, nil-terminated label), or the label has no end
+            pl = bytes.fromhex(e[2])
+            k = (c // 3) % 6
+            new = [b"", pl[:1], pl[:3], pl[:4], pl[:4] if pl[3:4] == b"\0" else struct.pack("<I", 7), pl.rstrip(b"\0") + b"x"][k]
+            evs[i] = [e[0], e[1], new.hex(), 1]
+            return base, "%s jumbo payload := %d bytes %s" % (e[0], len(new), "(no terminator)" if k == 5 else "")
         pl = bytes.fromhex(e[2])[:16]
         if len(pl) % 2 == 1 or len(pl) < 2:
             pl = (pl + bytes(16))[:max(2, len(pl) + 1)]
